@@ -50,7 +50,7 @@ CONSTANTS Variant,   \* "conn": federation.Conn.CollectionGet   "legacy": contro
           Modes,     \* subset of {"pdh", "uuid"}
           MaxHist
 
-VARIABLES cfg, ans, done,          \* contract ghost state
+VARIABLES cfg, ans, gaveup, done,  \* contract ghost state
           plan,      \* backend -> "match" | "mismatch" | "s404" | "s5xx" | "hang"
           home,      \* uuid mode: backend chosen by the UUID prefix (0 local/unknown prefix)
           pc,        \* "start" | "lwait" | "lcheck" | "fan" | "collect" | "returned"
@@ -63,7 +63,7 @@ VARIABLES cfg, ans, done,          \* contract ghost state
           hist
 
 C == INSTANCE FedFetchContract
-cvars == <<cfg, ans, done>>
+cvars == <<cfg, ans, gaveup, done>>
 ivars == <<plan, home, pc, st, got, errchan, first, nrecv, all404, cancelled>>
 vars  == <<cvars, ivars, hist>>
 view  == <<cvars, ivars>>
@@ -204,9 +204,10 @@ Stuck == /\ pc \in {"lwait", "uwait", "collect"} /\ ~cancelled
          /\ ~(pc = "collect" /\ nrecv = cfg.n)
 CallerCancel ==
     /\ Stuck
+    /\ C!ClientCancel
     /\ cancelled' = TRUE
     /\ hist' = IF Len(hist) < MaxHist THEN Append(hist, [b |-> -1, k |-> "cancel"]) ELSE hist
-    /\ UNCHANGED <<cvars, plan, home, pc, st, got, errchan, first, nrecv, all404>>
+    /\ UNCHANGED <<plan, home, pc, st, got, errchan, first, nrecv, all404>>
 
 Next == \/ UAsk \/ UAnswer \/ UReturn \/ LAsk \/ LAnswer \/ LCheck \/ Recv \/ Fail \/ CallerCancel
         \/ \E b \in 1 .. MaxN : RAsk(b) \/ RAnswer(b) \/ RCheck(b)
@@ -230,6 +231,7 @@ GenSpec == Init /\ [][GenNext]_vars
 Refines == [][\/ (\E b \in B : C!Ask(b))
               \/ (\E b \in B : C!Answer(b, got'[b]))
               \/ (\E ok \in BOOLEAN, p \in BOOLEAN, b \in B : C!GetDone(ok, p, Rel(b)) \/ C!GetDone(ok, p, NoRel))
+              \/ C!ClientCancel
               \/ UNCHANGED cvars]_vars
 
 TypeOK == /\ pc \in {"start", "uwait", "ucheck", "lwait", "lcheck", "collect", "returned"}
